@@ -18,6 +18,30 @@ func (x *Exec) inModule(fn *ssa.Function) bool {
 }
 
 func (x *Exec) call(fr *frame, st *State, site ssa.Instruction, cc *ssa.CallCommon) Value {
+	v := x.call0(fr, st, site, cc)
+	// monitor rule (light): after waiting on a condition variable other threads have run;
+	// the caller's monitor invariant holds again when the wait returns
+	if root := x.root; root != nil && root.con != nil && st.pc.S != "false" {
+		if want := root.con.Opts["reassume-typeinv-after"]; want != "" {
+			if f := cc.StaticCallee(); f != nil && shortKey(fnKey(f)) == want && len(root.fn.Params) > 0 {
+				env := &Env{x: x, st: st, vars: map[string]Value{}}
+				for k, pv := range root.params {
+					env.vars[k] = pv
+				}
+				if root.fn.Pkg != nil {
+					env.pkg = root.fn.Pkg.Pkg
+				}
+				if t, err := env.EvalBool(&ECall{Fn: "typeinv", Args: []Expr{&EIdent{root.fn.Params[0].Name()}}}); err == nil {
+					x.c.AddFact(st.pc, t, "monitor invariant after "+want)
+					x.c.Assume["monitor invariant of the receiver re-assumed after "+want+" (other threads only run inside critical sections that preserve it)"] = true
+				}
+			}
+		}
+	}
+	return v
+}
+
+func (x *Exec) call0(fr *frame, st *State, site ssa.Instruction, cc *ssa.CallCommon) Value {
 	c := x.c
 	args := make([]Value, len(cc.Args))
 	for i, a := range cc.Args {
